@@ -1112,7 +1112,8 @@ Section ExportSound.
                (st ++ [Some fl']) (length st) fl' /\
     f_n fl' = zlen (fmask filt cv) /\ length (f_slots fl') = 10%nat /\
     match filt with Some f => zlen cv = zlen f | None => True end /\
-    (forall b, In b (f_basins fl') -> (b_target b < length st)%nat).
+    (forall b, In b (f_basins fl') -> (b_target b < length st)%nat) /\
+    (forall b, In b (f_basins fl') -> b_internal b = false).
   Proof.
     intros Hst Hsc Hroot Hl10 Hcv H.
     assert (Hsrc : (src < length st)%nat) by exact (get_file_bound _ _ _ Hroot).
@@ -1277,6 +1278,12 @@ Section ExportSound.
       rewrite Forall_forall in Hbl'.
       destruct (Hbl' sb Hsb) as (t & m & fs & -> & Ht & _).
       simpl in Hk. destruct Hk as [_ ->]. exact Ht. }
+    assert (Hnoint : forall b, In b (f_basins fl') -> b_internal b = false).
+    { intros b Hb. rewrite Hbs in Hb.
+      destruct (Forall2_In_r _ _ _ _ HF2 Hb) as [sb [Hsb [Hh Hk]]].
+      rewrite Forall_forall in Hbl'.
+      destruct (Hbl' sb Hsb) as (t & m & fs & -> & _).
+      simpl in Hk. now destruct Hk. }
     assert (Hn' : f_n fl' = zlen (fmask filt cv)).
     { rewrite Hfn. destruct filt as [f|]; simpl.
       - symmetry. now apply mask_length_count.
@@ -1328,7 +1335,7 @@ Section ExportSound.
     intros Hst Hsc Hroot Hl10 Hcv H.
     destruct (export_sound st src root pfilts filt feats fl' cv
                            Hst Hsc Hroot Hl10 Hcv H)
-      as (Hnew & _ & _ & _ & Htg).
+      as (Hnew & _ & _ & _ & Htg & _).
     apply store_sound_snoc; auto.
   Qed.
 
@@ -1412,9 +1419,23 @@ Lemma has_feat_S fu st fid f :
   end.
 Proof. reflexivity. Qed.
 
-Definition scoped_all (st : store) : Prop :=
+(* internal basins always list their features (store_basin demands it) *)
+Definition internal_listed (st : store) : Prop :=
   forall fid fl, get_file st fid = Some fl ->
-    forall b, In b (f_basins fl) -> (b_target b < length st)%nat.
+    forall b, In b (f_basins fl) -> b_internal b = true -> b_feats b <> None.
+
+(* a basin whose features are not listed is a file basin of an older file *)
+Lemma unlisted_target st j fl b :
+  scoped st -> internal_listed st ->
+  get_file st j = Some fl -> In b (f_basins fl) ->
+  b_feats b = None \/ b_internal b = false ->
+  (b_target b < j)%nat.
+Proof.
+  intros Hsc Hint Eg Hb H. destruct (b_internal b) eqn:Ei.
+  - destruct H as [Ef|H]; [|discriminate].
+    exfalso; exact (Hint j fl Eg b Hb Ei Ef).
+  - exact (Hsc j fl Eg b Hb Ei).
+Qed.
 
 Lemma existsb_ext {B} (p q : B -> bool) l :
   (forall x, In x l -> p x = q x) -> existsb p l = existsb q l.
@@ -1442,30 +1463,33 @@ Qed.
 
 (* adding a file does not change what older files show *)
 Lemma has_feat_ext st x :
-  scoped_all st ->
+  scoped st -> internal_listed st ->
   forall fu j f, (j < length st)%nat ->
                  has_feat fu (st ++ [x]) j f = has_feat fu st j f.
 Proof.
-  intros Hsc fu; induction fu as [|fu IH]; intros j f Hj; [reflexivity|].
+  intros Hsc Hint fu; induction fu as [|fu IH]; intros j f Hj;
+    [reflexivity|].
   rewrite !has_feat_S, get_file_app_old by assumption.
   destruct (get_file st j) as [fl|] eqn:Eg; [|reflexivity].
   destruct (assoc f (f_innate fl)); [reflexivity|].
   apply existsb_ext. intros b Hb. unfold provides.
-  destruct (b_feats b); [reflexivity|].
-  apply IH. exact (Hsc j fl Eg b Hb).
+  destruct (b_feats b) eqn:Ef; [reflexivity|].
+  apply IH.
+  pose proof (unlisted_target st j fl b Hsc Hint Eg Hb (or_introl Ef)). lia.
 Qed.
 
 Lemma lookup_ext st x :
-  scoped_all st ->
+  scoped st -> internal_listed st ->
   forall fu j f, (j < length st)%nat ->
                  lookup fu (st ++ [x]) j f = lookup fu st j f.
 Proof.
-  intros Hsc fu; induction fu as [|fu IH]; intros j f Hj; [reflexivity|].
+  intros Hsc Hint fu; induction fu as [|fu IH]; intros j f Hj;
+    [reflexivity|].
   rewrite !lookup_S, get_file_app_old by assumption.
   destruct (get_file st j) as [fl|] eqn:Eg; [|reflexivity].
   destruct (assoc f (f_innate fl)); [reflexivity|].
   apply try_basins_ext. intros b Hb. apply In_sorted_basins in Hb.
-  pose proof (Hsc j fl Eg b Hb) as Ht.
+  pose proof (unlisted_target st j fl b Hsc Hint Eg Hb) as Ht.
   unfold attempt_fn, provides.
   replace (match b_feats b with
            | Some l => zmem f l
@@ -1475,9 +1499,11 @@ Proof.
           | Some l => zmem f l
           | None => has_feat fu st (b_target b) f
           end)
-    by (destruct (b_feats b); [reflexivity|];
-        symmetry; now apply has_feat_ext).
-  now rewrite IH.
+    by (destruct (b_feats b) eqn:Ef; [reflexivity|];
+        symmetry; apply has_feat_ext; auto;
+        pose proof (Ht (or_introl eq_refl)); lia).
+  destruct (b_internal b) eqn:Ei; [reflexivity|].
+  rewrite IH by (pose proof (Ht (or_intror eq_refl)); lia). reflexivity.
 Qed.
 
 Lemma assoc_filter_key {B} (p : Z -> bool) f (l : list (Z * B)) :
@@ -1644,15 +1670,15 @@ Qed.
    answers every lookup of a feature that is still present exactly like the
    original does: same stored data, same basin, same map. *)
 Lemma copy_keeps_lookup st fid fl keep :
-  scoped_all st ->
+  scoped st -> internal_listed st ->
   get_file st fid = Some fl ->
-  (forall b, In b (f_basins fl) -> b_internal b = true ->
-             b_feats b <> None) ->
   forall fu f, zmem f keep = true ->
     lookup fu (st ++ [Some (copy_file fl keep)]) (length st) f
     = lookup fu st fid f.
 Proof.
-  intros Hsc Hg Hint fu f Hk. destruct fu as [|fu]; [reflexivity|].
+  intros Hsc Hint0 Hg fu f Hk. destruct fu as [|fu]; [reflexivity|].
+  pose proof (Hint0 fid fl Hg) as Hint.
+  pose proof (get_file_bound st fid fl Hg) as Hfid.
   rewrite !lookup_S, Hg.
   assert (Hgc : get_file (st ++ [Some (copy_file fl keep)]) (length st)
                 = Some (copy_file fl keep)).
@@ -1665,7 +1691,7 @@ Proof.
   rewrite (sorted_basins_flat_map _ _ (copy_basin_keys (f_innate fl) keep)).
   apply try_basins_flat_map.
   intros b Hb. apply In_sorted_basins in Hb.
-  pose proof (Hsc fid fl Hg b Hb) as Ht.
+  pose proof (unlisted_target st fid fl b Hsc Hint0 Hg Hb) as Ht.
   unfold copy_basin. destruct (b_internal b) eqn:Ei.
   - (* internal basin: rewritten to the copied features *)
     destruct (b_feats b) as [feats|] eqn:Ef;
@@ -1694,9 +1720,12 @@ Proof.
             | Some l => zmem f l
             | None => has_feat fu st (b_target b) f
             end)
-      by (destruct (b_feats b); [reflexivity|];
-          symmetry; now apply has_feat_ext).
-    rewrite Ei. now rewrite lookup_ext.
+      by (destruct (b_feats b) eqn:Ef; [reflexivity|];
+          symmetry; apply has_feat_ext; auto;
+          pose proof (Ht (or_introl eq_refl)); lia).
+    rewrite Ei.
+    rewrite lookup_ext by (auto; pose proof (Ht (or_intror eq_refl)); lia).
+    reflexivity.
 Qed.
 
 Example ex_copy :
@@ -1774,16 +1803,36 @@ Qed.
 
 (* indexing, iteration and np.array() of a mapped feature (scalar, image,
    ragged) all show origin[basinmap] *)
-Lemma proxy_access_agree {A} (feat : list A) bmap is_scalar cast mapped :
+Lemma proxy_access_agree {A} (feat : list A) bmap is_scalar cast amax amin
+      mapped :
   gather feat bmap = Some mapped ->
   forall cache ac,
     cache_ok is_scalar mapped cache ->
-    snd (proxy_access A feat bmap is_scalar cast cache ac)
-    = direct_access cast mapped ac /\
+    snd (proxy_access A feat bmap is_scalar cast amax amin cache ac)
+    = direct_access cast amax amin mapped ac /\
     cache_ok is_scalar mapped
-             (fst (proxy_access A feat bmap is_scalar cast cache ac)).
+             (fst (proxy_access A feat bmap is_scalar cast amax amin
+                                cache ac)).
 Proof.
-  intros H cache ac Hc. destruct ac as [ix| | |].
+  intros H cache ac Hc.
+  assert (Harr : forall (g : list A -> res A),
+    snd (let '(c', arr) := proxy_array A feat bmap is_scalar cache in
+         (c', match arr with Some l => g l | None => RErr end)) = g mapped /\
+    cache_ok is_scalar mapped
+      (fst (let '(c', arr) := proxy_array A feat bmap is_scalar cache in
+            (c', match arr with Some l => g l | None => RErr end)))).
+  { intros g. unfold proxy_array. destruct cache as [c|].
+    - rewrite loop_gather, H. simpl. auto.
+    - destruct is_scalar eqn:Es.
+      + rewrite H. simpl. split; [reflexivity|]. right; auto.
+      + rewrite loop_gather, H. simpl. auto. }
+  destruct ac as [ix| | | | | |];
+    [ | | | | exact (Harr (summary amax)) | exact (Harr (summary amin))
+      | destruct (Harr (fun l => match l with [] => RErr | _ => RMany [] end))
+          as [E1 E2]; split; [|exact E2];
+        unfold proxy_access, direct_access;
+        destruct (proxy_array A feat bmap is_scalar cache) as [c' [l|]];
+        simpl in *; [destruct l; exact E1|exact E1] ].
   - exact (proxy_routes_agree feat bmap is_scalar mapped H cache ix Hc).
   - unfold proxy_access, direct_access.
     assert (Hlen : (length mapped < S (length bmap))%nat)
@@ -1810,20 +1859,15 @@ Qed.
 Example ex_iter_array :
   let feat := [10; 11; 12; 13] in
   let bmap := [3; 3; 0; 2] in
-  snd (proxy_access Z feat bmap false trunc8 None AIter) = RMany [13; 13; 10; 12] /\
-  snd (proxy_access Z feat bmap false trunc8 None AArray) = RMany [13; 13; 10; 12] /\
-  snd (proxy_access Z feat bmap true trunc8 (Some [13; 13; 10; 12]) AIter)
+  snd (proxy_access Z feat bmap false trunc8 list_max list_min None AIter) = RMany [13; 13; 10; 12] /\
+  snd (proxy_access Z feat bmap false trunc8 list_max list_min None AArray) = RMany [13; 13; 10; 12] /\
+  snd (proxy_access Z feat bmap true trunc8 list_max list_min (Some [13; 13; 10; 12]) AIter)
   = RMany [13; 13; 10; 12].
 Proof. vm_compute. repeat split. Qed.
 
 (* ------------------------------------------------------------------ *)
 (* the fuel of lookup is never exhausted on acyclic stores             *)
 (* ------------------------------------------------------------------ *)
-(* internal basins always list their features (store_basin demands it) *)
-Definition internal_listed (st : store) : Prop :=
-  forall fid fl, get_file st fid = Some fl ->
-    forall b, In b (f_basins fl) -> b_internal b = true -> b_feats b <> None.
-
 Lemma provides_mono st b f fu :
   (b_feats b = None -> has_feat fu st (b_target b) f
                        = has_feat (S fu) st (b_target b) f) ->
@@ -2202,5 +2246,413 @@ Proof.
   intros H1 H2 H3 H4. simpl. now rewrite H1, H2, H3, H4.
 Qed.
 
-Example ex_moved : run_find false = [0] /\ run_find true = [1].
-Proof. vm_compute. split; reflexivity. Qed.
+Example ex_moved :
+  run_find (2, 0) = [0] /\ run_find (0, 2) = [1] /\ run_find (1, 2) = [1] /\
+  run_find (2, 2) = [0] /\ run_find (1, 0) = [-1].
+Proof. vm_compute. repeat split. Qed.
+
+(* ------------------------------------------------------------------ *)
+(* pipelines: the invariant of run_steps                               *)
+(* ------------------------------------------------------------------ *)
+(* origin events of the files of a pipeline, in creation order *)
+Definition omf (oms : list (list Z)) (j : nat) : list Z := nth j oms [].
+
+Lemma omf_snoc oms new n j :
+  length oms = n -> omf (oms ++ [new]) j = omap_ext (omf oms) n new j.
+Proof.
+  intros <-. unfold omf, omap_ext.
+  destruct (Nat.eqb j (length oms)) eqn:E.
+  - apply Nat.eqb_eq in E. subst. rewrite app_nth2, Nat.sub_diag by lia.
+    reflexivity.
+  - apply Nat.eqb_neq in E. destruct (Nat.lt_ge_cases j (length oms)).
+    + now rewrite app_nth1.
+    + rewrite !nth_overflow; auto. rewrite app_length; simpl; lia.
+Qed.
+
+Lemma file_sound_ext truth om1 om2 st fid fl :
+  (forall j, om1 j = om2 j) ->
+  file_sound truth om1 st fid fl -> file_sound truth om2 st fid fl.
+Proof.
+  intros He (HI & HB & HN). unfold file_sound. repeat split.
+  - intros f d Ha. rewrite <- He. now apply HI.
+  - intros b Hb Hi. specialize (HB b Hb Hi). rewrite <- !He. exact HB.
+  - intros b Hb Hi. destruct (HN b Hb Hi) as (k & m & rows & H).
+    exists k, m, rows. rewrite <- He. exact H.
+Qed.
+
+Lemma store_sound_ext truth om1 om2 st :
+  (forall j, om1 j = om2 j) ->
+  store_sound truth om1 st -> store_sound truth om2 st.
+Proof.
+  intros He Hst fid fl Hg. apply (file_sound_ext truth om1 om2); auto.
+Qed.
+
+Lemma assoc_filter_sub {B} (p : Z -> bool) f (l : list (Z * B)) d :
+  assoc f (filter (fun kv => p (fst kv)) l) = Some d ->
+  p f = true /\ assoc f l = Some d.
+Proof.
+  induction l as [|[k v] l IH]; simpl; [discriminate|].
+  destruct (p k) eqn:Ep; simpl.
+  - destruct (f =? k) eqn:E.
+    + intros H. assert (k = f) by lia. subst. auto.
+    + exact IH.
+  - intros H. destruct (IH H) as [Hp Ha]. split; [assumption|].
+    destruct (f =? k) eqn:E; [|assumption].
+    assert (k = f) by lia. subst. congruence.
+Qed.
+
+Section Pipeline.
+  Variable truth : Z -> list Z.
+
+  Definition pipe_inv (oms : list (list Z)) (st : store) : Prop :=
+    length oms = length st /\
+    store_sound truth (omf oms) st /\
+    scoped st /\
+    internal_listed st /\
+    (forall fid fl, get_file st fid = Some fl ->
+       length (f_slots fl) = 10%nat /\ f_n fl = zlen (omf oms fid)).
+
+  Lemma pipe_inv_nil : pipe_inv [] [].
+  Proof.
+    destruct (store_sound_nil truth (omf [])) as [S C].
+    unfold pipe_inv. split; [reflexivity|]. split; [exact S|].
+    split; [exact C|].
+    split; intros j fl H; unfold get_file in H;
+      destruct j; simpl in H; discriminate.
+  Qed.
+
+  Lemma get_file_snoc_none (st : store) fid fl :
+    get_file (st ++ [None]) fid = Some fl ->
+    (fid < length st)%nat /\ get_file st fid = Some fl.
+  Proof.
+    intros Hg. destruct (Nat.lt_ge_cases fid (length st)) as [Hlt|Hge].
+    - rewrite get_file_app_old in Hg by assumption. auto.
+    - pose proof (get_file_bound _ _ _ Hg) as Hb.
+      rewrite app_length in Hb; simpl in Hb.
+      assert (fid = length st) by lia. subst fid.
+      unfold get_file in Hg.
+      rewrite nth_error_app2, Nat.sub_diag in Hg by lia. discriminate.
+  Qed.
+
+  (* a failed step leaves a hole; nothing else changes *)
+  Lemma pipe_inv_snoc_none oms st new :
+    pipe_inv oms st -> pipe_inv (oms ++ [new]) (st ++ [None]).
+  Proof.
+    intros (Hl & Hst & Hsc & Hint & Hsl).
+    assert (Hom : forall j, (j < length st)%nat ->
+                            omf (oms ++ [new]) j = omf oms j).
+    { intros j Hj. unfold omf. rewrite app_nth1 by lia. reflexivity. }
+    split; [rewrite !app_length; simpl; lia|]. split; [|split; [|split]].
+    - intros fid fl Hg. destruct (get_file_snoc_none st fid fl Hg) as [Hlt Ho].
+      destruct (Hst fid fl Ho) as (HI & HB & HN). unfold file_sound.
+      rewrite (Hom fid Hlt). repeat split; auto.
+      intros b Hb Hi. specialize (HB b Hb Hi).
+      pose proof (Hsc fid fl Ho b Hb Hi).
+      rewrite (Hom (b_target b)) by lia. exact HB.
+    - intros fid fl Hg b Hb Hi.
+      destruct (get_file_snoc_none st fid fl Hg) as [_ Ho].
+      exact (Hsc fid fl Ho b Hb Hi).
+    - intros fid fl Hg b Hb Hi.
+      destruct (get_file_snoc_none st fid fl Hg) as [_ Ho].
+      exact (Hint fid fl Ho b Hb Hi).
+    - intros fid fl Hg.
+      destruct (get_file_snoc_none st fid fl Hg) as [Hlt Ho].
+      rewrite (Hom fid Hlt). exact (Hsl fid fl Ho).
+  Qed.
+
+  Lemma pipe_inv_snoc_some oms st fl' new :
+    pipe_inv oms st ->
+    file_sound truth (omap_ext (omf oms) (length st) new)
+               (st ++ [Some fl']) (length st) fl' ->
+    (forall b, In b (f_basins fl') -> b_internal b = false ->
+               (b_target b < length st)%nat) ->
+    (forall b, In b (f_basins fl') -> b_internal b = true ->
+               b_feats b <> None) ->
+    length (f_slots fl') = 10%nat ->
+    f_n fl' = zlen new ->
+    pipe_inv (oms ++ [new]) (st ++ [Some fl']).
+  Proof.
+    intros (Hl & Hst & Hsc & Hint & Hsl) Hnew Htg Hli Hs10 Hn.
+    destruct (store_sound_snoc truth (omf oms) st fl' new Hst Hsc Hnew Htg)
+      as [S C].
+    assert (He : forall j, omap_ext (omf oms) (length st) new j
+                           = omf (oms ++ [new]) j)
+      by (intros j; symmetry; now apply omf_snoc).
+    split; [rewrite !app_length; simpl; lia|]. split; [|split; [|split]].
+    - exact (store_sound_ext truth _ _ _ He S).
+    - exact C.
+    - intros fid fl Hg b Hb Hi.
+      destruct (get_file_snoc_cases (omf oms) st fl' fid fl Hg) as [[_ Ho]|[-> ->]].
+      + exact (Hint fid fl Ho b Hb Hi).
+      + exact (Hli b Hb Hi).
+    - intros fid fl Hg. rewrite <- He.
+      destruct (get_file_snoc_cases (omf oms) st fl' fid fl Hg) as [[Hlt Ho]|[-> ->]].
+      + unfold omap_ext.
+        replace (Nat.eqb fid (length st)) with false
+          by (symmetry; apply Nat.eqb_neq; lia). exact (Hsl fid fl Ho).
+      + unfold omap_ext. rewrite Nat.eqb_refl. auto.
+  Qed.
+
+  (* store_basin lists the features of internal basins *)
+  Lemma store_basins_listed sbs :
+    forall fl fl',
+      (forall b, In b (f_basins fl) -> b_internal b = true ->
+                 b_feats b <> None) ->
+      store_basins fl sbs = Some fl' ->
+      forall b, In b (f_basins fl') -> b_internal b = true ->
+                b_feats b <> None.
+  Proof.
+    induction sbs as [|sb sbs IH]; intros fl fl' H0 H; simpl in H.
+    - inversion H; subst. exact H0.
+    - destruct (store_basin fl sb) as [fl1|] eqn:E1; [|discriminate].
+      apply (IH fl1 fl'); [|assumption].
+      intros b Hb Hi. unfold store_basin in E1.
+      destruct sb as [data m|t [mm|] name feats]; simpl in E1.
+      + destruct (alloc (f_slots fl) m) as [[k s']|]; [|discriminate].
+        inversion E1; subst; simpl in Hb. apply in_app_or in Hb.
+        destruct Hb as [Hb|[<-|[]]]; [now apply H0|simpl; discriminate].
+      + destruct (match name with
+                  | Some k => alloc_named (Z.to_nat k) (f_slots fl) mm
+                  | None => alloc (f_slots fl) mm
+                  end) as [[k s']|]; [|discriminate].
+        inversion E1; subst; simpl in Hb. apply in_app_or in Hb.
+        destruct Hb as [Hb|[<-|[]]]; [now apply H0|simpl in Hi; discriminate].
+      + inversion E1; subst; simpl in Hb. apply in_app_or in Hb.
+        destruct Hb as [Hb|[<-|[]]]; [now apply H0|simpl in Hi; discriminate].
+  Qed.
+
+  (* ---------------- the copy step ------------------------------------ *)
+  Lemma copy_file_sound oms st src fl keep :
+    pipe_inv oms st ->
+    get_file st src = Some fl ->
+    pipe_inv (oms ++ [omf oms src])
+             (st ++ [Some (copy_file fl keep)]).
+  Proof.
+    intros Hinv Hg. pose proof Hinv as (Hl & Hst & Hsc & Hint & Hsl).
+    pose proof (get_file_bound st src fl Hg) as Hsrc.
+    destruct (Hst src fl Hg) as (HI & HB & HN).
+    destruct (Hsl src fl Hg) as [Hs10 Hn].
+    assert (Hown : omap_ext (omf oms) (length st) (omf oms src) (length st)
+                   = omf oms src)
+      by (unfold omap_ext; now rewrite Nat.eqb_refl).
+    assert (Hold : forall j, (j < length st)%nat ->
+              omap_ext (omf oms) (length st) (omf oms src) j = omf oms j).
+    { intros j Hj. unfold omap_ext.
+      replace (Nat.eqb j (length st)) with false
+        by (symmetry; apply Nat.eqb_neq; lia). reflexivity. }
+    assert (Hcb : forall b, In b (f_basins (copy_file fl keep)) ->
+              exists b0, In b0 (f_basins fl) /\
+                         In b (copy_basin (f_innate fl) keep b0)).
+    { intros b Hb. simpl in Hb. apply in_flat_map in Hb. exact Hb. }
+    apply pipe_inv_snoc_some; auto.
+    - unfold file_sound. rewrite Hown. repeat split.
+      + intros f d Ha. simpl in Ha.
+        apply (assoc_filter_sub (fun k => zmem k keep)) in Ha as [_ Ha].
+        now apply HI.
+      + intros b Hb Hi. destruct (Hcb b Hb) as [b0 [Hb0 Hin]].
+        unfold copy_basin in Hin. destruct (b_internal b0) eqn:Ei0.
+        * destruct (filter (fun f => zmem f keep)
+                           (match b_feats b0 with Some l => l | None => [] end));
+            [contradiction|]. destruct Hin as [<-|[]]. discriminate.
+        * destruct Hin as [<-|[]]. specialize (HB b0 Hb0 Ei0).
+          pose proof (Hsc src fl Hg b0 Hb0 Ei0).
+          rewrite Hold by lia. exact HB.
+      + intros b Hb Hi. destruct (Hcb b Hb) as [b0 [Hb0 Hin]].
+        unfold copy_basin in Hin. destruct (b_internal b0) eqn:Ei0.
+        * destruct (filter (fun f => zmem f keep)
+                           (match b_feats b0 with Some l => l | None => [] end));
+            [contradiction|]. destruct Hin as [<-|[]]. simpl.
+          destruct (HN b0 Hb0 Ei0) as (k & m & rows & Hk & Hs & Hr & Hd).
+          exists k, m, rows. repeat split; auto.
+          intros f d Ha.
+          apply (assoc_filter_sub
+                   (fun k0 => zmem k0 keep
+                              && negb (has_key k0 (f_innate fl)))) in Ha
+            as [_ Ha]. now apply Hd.
+        * destruct Hin as [<-|[]]. congruence.
+    - intros b Hb Hi. destruct (Hcb b Hb) as [b0 [Hb0 Hin]].
+      unfold copy_basin in Hin. destruct (b_internal b0) eqn:Ei0.
+      + destruct (filter (fun f => zmem f keep)
+                         (match b_feats b0 with Some l => l | None => [] end));
+          [contradiction|]. destruct Hin as [<-|[]]. discriminate.
+      + destruct Hin as [<-|[]]. pose proof (Hsc src fl Hg b0 Hb0 Ei0). lia.
+    - intros b Hb Hi. destruct (Hcb b Hb) as [b0 [Hb0 Hin]].
+      unfold copy_basin in Hin. destruct (b_internal b0) eqn:Ei0.
+      + destruct (filter (fun f => zmem f keep)
+                         (match b_feats b0 with Some l => l | None => [] end));
+          [contradiction|]. destruct Hin as [<-|[]]. simpl. discriminate.
+      + destruct Hin as [<-|[]]. congruence.
+  Qed.
+
+  (* ---------------- what a step may assume --------------------------- *)
+  (* [new]: the origin events the new file stands for *)
+  Inductive step_ok (oms : list (list Z)) (st : store)
+    : step -> list Z -> Prop :=
+  | ok_write n innate sbs new :
+      n = zlen new ->
+      (forall f d, assoc f innate = Some d ->
+                   gather (truth f) new = Some d) ->
+      Forall (request_ok truth (omf oms) st new) sbs ->
+      step_ok oms st (SWrite n innate sbs) new
+  | ok_export src pfilts filt feats cv :
+      (forall root, get_file st (Z.to_nat src) = Some root ->
+         match pfilts with
+         | [] => cv = omf oms (Z.to_nat src)
+         | _ => exists idx, child2root pfilts = Some idx /\
+                            gather (omf oms (Z.to_nat src)) idx = Some cv
+         end) ->
+      step_ok oms st (SExport src pfilts filt feats) (fmask filt cv)
+  | ok_copy src keep :
+      step_ok oms st (SCopy src keep) (omf oms (Z.to_nat src)).
+
+  Lemma run_step_inv oms st s new :
+    pipe_inv oms st -> step_ok oms st s new ->
+    pipe_inv (oms ++ [new]) (run_step st s).
+  Proof.
+    intros Hinv Hok. pose proof Hinv as (Hl & Hst & Hsc & Hint & Hsl).
+    destruct Hok as [n innate sbs new Hn Hinn Hreq
+                    |src pfilts filt feats cv Hcv|src keep];
+      unfold run_step.
+    - destruct (forallb _ sbs); [|now apply pipe_inv_snoc_none].
+      destruct (store_basins _ sbs) as [fl'|] eqn:E;
+        [|now apply pipe_inv_snoc_none].
+      destruct (write_file_sound truth (omf oms) st n innate sbs fl' new
+                                 Hinn Hreq E) as [Hnew Htg].
+      assert (Hnames : Forall name_ok sbs).
+      { apply Forall_forall. intros sb Hs. rewrite Forall_forall in Hreq.
+        exact (request_name_ok truth (omf oms) st new sb (Hreq sb Hs)). }
+      assert (Hl0 : length (f_slots {| f_n := n; f_innate := innate;
+                                       f_slots := empty_slots;
+                                       f_basins := [] |}) = 10%nat)
+        by reflexivity.
+      destruct (store_basins_written sbs _ fl' Hl0 Hnames E)
+        as (_ & Hfn & Hs10 & _).
+      apply pipe_inv_snoc_some; auto.
+      + apply (store_basins_listed sbs
+                 {| f_n := n; f_innate := innate; f_slots := empty_slots;
+                    f_basins := [] |} fl'); [|exact E].
+        intros b [].
+      + simpl in Hfn. congruence.
+    - destruct (export st (Z.to_nat src) pfilts filt feats) as [fl'|] eqn:E;
+        [|now apply pipe_inv_snoc_none].
+      assert (Hroot : exists root, get_file st (Z.to_nat src) = Some root).
+      { unfold export in E.
+        destruct (get_file st (Z.to_nat src)); [eauto|discriminate]. }
+      destruct Hroot as [root Hroot].
+      destruct (Hsl _ _ Hroot) as [Hr10 Hrn].
+      assert (Hcv' : match pfilts with
+                     | [] => f_n root = zlen (omf oms (Z.to_nat src)) /\
+                             cv = omf oms (Z.to_nat src)
+                     | _ => exists idx, child2root pfilts = Some idx /\
+                              gather (omf oms (Z.to_nat src)) idx = Some cv
+                     end).
+      { specialize (Hcv root Hroot). destruct pfilts; auto. }
+      destruct (export_sound truth (omf oms) st (Z.to_nat src) root pfilts
+                             filt feats fl' cv Hst Hsc Hroot Hr10 Hcv' E)
+        as (Hnew & Hfn & Hs10 & _ & Htg & Hnoint).
+      apply pipe_inv_snoc_some; auto.
+      (* exported files have no internal basins *)
+      intros b Hb Hi. rewrite (Hnoint b Hb) in Hi. discriminate.
+    - destruct (get_file st (Z.to_nat src)) as [fl|] eqn:Eg;
+        [|now apply pipe_inv_snoc_none].
+      now apply copy_file_sound.
+  Qed.
+
+  (* what the steps of a pipeline may assume, each in the store built by
+     the steps before it *)
+  Fixpoint steps_ok (oms : list (list Z)) (st : store) (steps : list step)
+           (news : list (list Z)) : Prop :=
+    match steps, news with
+    | [], [] => True
+    | s :: r, new :: nr =>
+        step_ok oms st s new /\ steps_ok (oms ++ [new]) (run_step st s) r nr
+    | _, _ => False
+    end.
+
+  Lemma run_steps_inv steps :
+    forall news oms st,
+      pipe_inv oms st -> steps_ok oms st steps news ->
+      pipe_inv (oms ++ news) (fold_left run_step steps st).
+  Proof.
+    induction steps as [|s steps IH]; intros [|new news] oms st Hinv Hok;
+      simpl in Hok; try contradiction.
+    - now rewrite app_nil_r.
+    - destruct Hok as [Hs Hr]. simpl.
+      replace (oms ++ new :: news) with ((oms ++ [new]) ++ news)
+        by (rewrite <- app_assoc; reflexivity).
+      apply IH; [|assumption]. now apply run_step_inv.
+  Qed.
+
+  (* Pipelines of any length and shape (hand-written files with same /
+     mapped / internal basins, filtered and unfiltered exports from files and
+     hierarchy children, copies, failed steps): the store computed by
+     run_steps - the function that is run against the real code - satisfies
+     the invariant, with the origin events [news]. *)
+  Lemma pipeline_sound steps news :
+    steps_ok [] [] steps news -> pipe_inv news (run_steps steps).
+  Proof.
+    intros H. exact (run_steps_inv steps news [] [] pipe_inv_nil H).
+  Qed.
+
+  (* ... hence whatever can be read from any file of the pipeline is the
+     origin's data at the file's origin events, through every access *)
+  Lemma pipeline_resolve steps news fid f d :
+    steps_ok [] [] steps news ->
+    resolve (run_steps steps) fid f = Some d ->
+    gather (truth f) (nth fid news []) = Some d.
+  Proof.
+    intros H Hr. destruct (pipeline_sound steps news H) as (_ & Hst & _).
+    exact (resolve_sound truth (omf news) _ fid f d Hst Hr).
+  Qed.
+End Pipeline.
+
+Example ex_pipeline :
+  steps_ok ex_truth [] []
+    [SWrite 3 [(1, [10; 11; 12]); (2, [70; 71; 72])] [];
+     SWrite 4 [] ex_sbs;
+     SCopy 1 [1; 2];
+     SExport 2 [] (Some [true; false; true; true]) (Some [])]
+    [[0; 1; 2]; [2; 2; 0; 1]; [2; 2; 0; 1]; [2; 0; 1]].
+Proof.
+  simpl. repeat split.
+  - constructor; [reflexivity| |constructor].
+    intros f d H. simpl in H. unfold ex_truth.
+    destruct (f =? 1) eqn:E1; [inversion H; reflexivity|].
+    destruct (f =? 2) eqn:E2; [inversion H; reflexivity|discriminate].
+  - constructor; [reflexivity|intros f d H; discriminate|].
+    repeat constructor; simpl; auto.
+    exists [2; 0; 1]. split; [reflexivity|].
+    intros f d H. simpl in H. unfold ex_truth.
+    destruct (f =? 2) eqn:E2; [|discriminate].
+    assert (f = 2) by lia. subst. inversion H. reflexivity.
+  - exact (ok_copy ex_truth _ _ 1 [1; 2]).
+  - change [2; 0; 1]
+      with (fmask (Some [true; false; true; true]) [2; 2; 0; 1]).
+    apply ok_export. intros root _. reflexivity.
+Qed.
+
+(* every way of reading (index, iteration, np.array, cast) what lookup
+   hands out shows the origin's feature at the file's events *)
+Lemma access_sound truth omap st fid f o mapped cast amax amin cache ac :
+  store_sound truth omap st ->
+  lookup (fuel_of st) st fid f = Some o ->
+  gather (truth f) (omap fid) = Some mapped ->
+  match o with
+  | ODirect d => direct_access cast amax amin d ac
+                 = direct_access cast amax amin mapped ac
+  | OProxy d m =>
+      forall dm, gather d m = Some dm ->
+      cache_ok (is_scalar_feat f) dm cache ->
+      snd (proxy_access Z d m (is_scalar_feat f) cast amax amin cache ac)
+      = direct_access cast amax amin mapped ac
+  end.
+Proof.
+  intros Hst Hl Hg. destruct o as [d|d m].
+  - pose proof (lookup_sound truth omap st Hst _ _ _ _ d Hl eq_refl) as H.
+    rewrite Hg in H. now inversion H.
+  - intros dm Hdm Hc.
+    pose proof (lookup_sound truth omap st Hst _ _ _ _ dm Hl Hdm) as H.
+    rewrite Hg in H. inversion H; subst.
+    exact (proj1 (proxy_access_agree d m _ cast amax amin dm Hdm cache ac
+                                     Hc)).
+Qed.
